@@ -77,7 +77,16 @@ static void prepare_categories()
 
       if (!cat_pattern.empty())
       {
-         include_categories[i] = new include_category(cat_pattern);
+         try
+         {
+            include_categories[i] = new include_category(cat_pattern);
+         }
+         catch (const std::regex_error &e)
+         {
+            LOG_FMT(LERR, "The option '%s' is not a valid regular expression: %s\n",
+                    include_category_options[i]->name(), e.what());
+            exit(EX_CONFIG);
+         }
       }
       else
       {
